@@ -229,6 +229,7 @@ func registerGoStubs(p *Program) {
 		"(*net/url.URL).IsAbs":                    "URLIsAbs",
 		"golang.org/x/crypto/bcrypt.GenerateFromPassword":   "BcryptGenerateFromPassword",
 		"golang.org/x/crypto/bcrypt.CompareHashAndPassword": "BcryptCompareHashAndPassword",
+		"golang.org/x/crypto/bcrypt.Cost":                   "BcryptCost",
 		"io/ioutil.ReadAll":                       "IOReadAll",
 	}
 	for ext, name := range table {
